@@ -64,8 +64,88 @@ fn run_session(sc: &Scenario) -> Outcome {
             out.count("c03.signed_artefacts_validated", 1);
             report(strict::validate_tx(&s.bytes), "signed transaction", b.op, &mut out);
         }
+        placement(sc, &h, b, &bytes, &mut out);
     }
     out
+}
+
+/// Map keys are "as specified" only if each value sits under the key the specification gives it.
+/// Two fields of the same CBOR type (ttl / validity start, donation / treasury, collateral /
+/// reference inputs ...) cannot be told apart by shape, so the value found under each key is
+/// compared with what the history put into the builder.
+fn placement(sc: &Scenario, h: &crate::exec::History, b: &crate::exec::BuiltObs, bytes: &[u8], out: &mut Outcome) {
+    use crate::scn::Op;
+    let v = match crate::oracle::TxView::parse(bytes) {
+        Ok(v) => v,
+        Err(_) => return,
+    };
+    let body = v.body();
+    let mut ttl = None;
+    let mut start = None;
+    let mut donation = None;
+    let mut treasury = None;
+    let mut coll: Vec<(Vec<u8>, u64)> = vec![];
+    let mut req: Vec<Vec<u8>> = vec![];
+    let mut explicit_refs: Vec<(Vec<u8>, u64)> = vec![];
+    for (i, op) in sc.ops.iter().enumerate() {
+        if i >= b.op || !h.results[i].is_ok() {
+            continue;
+        }
+        match op {
+            Op::Ttl(t) => ttl = Some(*t),
+            Op::Start(t) => start = Some(*t),
+            Op::Donation(d) => donation = Some(*d),
+            Op::Treasury(t) => treasury = Some(*t),
+            Op::CollUtxo(u) => coll.push(sc.world.outpoint(*u)),
+            Op::ReqSigner(k) => req.push(crate::world::key(*k).hash_bytes.to_vec()),
+            Op::RefIn(u, _) => explicit_refs.push(sc.world.outpoint(*u)),
+            _ => {}
+        }
+    }
+    out.count("c03.placement_checked", 1);
+    let mut check_uint = |key: u64, want: Option<u64>, name: &str, out: &mut Outcome| {
+        let got = body.get(key).and_then(|n| n.as_u64());
+        if got != want {
+            out.violate("C03.field_placement", &format!("{}_not_under_key_{}", name, key), format!("op {}: the history set {} = {:?} but body[{}] = {:?}", b.op, name, want, key, got));
+        }
+    };
+    check_uint(3, ttl, "ttl", out);
+    check_uint(8, start, "validity_start", out);
+    check_uint(22, donation, "donation", out);
+    check_uint(21, treasury, "current_treasury_value", out);
+    let fee = b.builder.get_fee_if_set().map(u64::from);
+    check_uint(2, fee, "fee", out);
+    // inputs: what the builder holds
+    let want_inputs: std::collections::BTreeSet<(Vec<u8>, u64)> = b.builder.verif_input_list().iter().map(|(i, _)| (i.transaction_id().to_bytes(), i.index() as u64)).collect();
+    let got_inputs: std::collections::BTreeSet<(Vec<u8>, u64)> = v.inputs_of(0).unwrap_or_default().into_iter().collect();
+    if want_inputs != got_inputs {
+        out.violate("C03.field_placement", "inputs_not_under_key_0", format!("op {}: body[0] holds {} inputs, the builder {}", b.op, got_inputs.len(), want_inputs.len()));
+    }
+    let got_coll: std::collections::BTreeSet<(Vec<u8>, u64)> = v.inputs_of(13).unwrap_or_default().into_iter().collect();
+    let want_coll: std::collections::BTreeSet<(Vec<u8>, u64)> = coll.into_iter().collect();
+    if got_coll != want_coll {
+        out.violate("C03.field_placement", "collateral_not_under_key_13", format!("op {}: body[13] holds {} collateral inputs, the history set {}", b.op, got_coll.len(), want_coll.len()));
+    }
+    let got_refs: std::collections::BTreeSet<(Vec<u8>, u64)> = v.inputs_of(18).unwrap_or_default().into_iter().collect();
+    for r in &explicit_refs {
+        if !got_refs.contains(r) && !got_inputs.contains(r) {
+            out.violate("C03.field_placement", "reference_input_not_under_key_18", format!("op {}: explicit reference input {}#{} is not in body[18]", b.op, hex::encode(&r.0[..4]), r.1));
+        }
+    }
+    let got_req: Vec<Vec<u8>> = body.get(14).and_then(|n| n.set_items()).map(|a| a.iter().filter_map(|x| x.as_bytes().map(|b| b.to_vec())).collect()).unwrap_or_default();
+    for k in &req {
+        if !got_req.contains(k) {
+            out.violate("C03.field_placement", "required_signer_not_under_key_14", format!("op {}: required signer {} is not in body[14]", b.op, hex::encode(&k[..4])));
+        }
+    }
+    // total collateral / collateral return as the builder holds them
+    let (cret, ctot) = b.builder.verif_collateral_fields();
+    check_uint(17, ctot.map(u64::from), "total_collateral", out);
+    let got_ret = body.get(16).map(|n| v.span(n).to_vec());
+    let want_ret = cret.map(|o| o.to_bytes());
+    if got_ret != want_ret {
+        out.violate("C03.field_placement", "collateral_return_not_under_key_16", format!("op {}: body[16] differs from the collateral return held by the builder", b.op));
+    }
 }
 
 fn run_send_all(c: &c13::Case) -> Outcome {
